@@ -202,6 +202,13 @@ Record tok := mkTok { t_kind : kind; t_text : list byte; t_trivia : list tpiece 
 (* item of the tokenizer: `(Token, Option<LexErr>)` *)
 Definition ltok := (tok * option lexerr)%type.
 
+(* a lexer error refers to an existing trivia piece (`trivia[index]` in SyntaxErr::from_lex_err) *)
+Definition err_ok (x : ltok) : bool :=
+  match snd x with
+  | Some (_, PTrivia i) => (i <? length (t_trivia (fst x)))%nat
+  | _ => true
+  end.
+
 (* Token::write_to, Token::text_len, Token::byte_len *)
 Definition token_bytes (t : tok) : list byte := trivia_bytes (t_trivia t) ++ t_text t.
 Definition text_len (t : tok) : N := N.of_nat (length (t_text t)).
